@@ -252,7 +252,19 @@ func c09Line(work, line string, yml bool, tag string, lineNo int, r *rng, every,
 				if zeit < last {
 					ofail(g, zeit, "phenology-order", "harvest=%d before stage date %d", zeit, last)
 				}
+				// season means of the crop record as nitro.go:327-328 forms them (sum / (ERNTE - SAAT))
+				nd := g.ERNTE[ai] - g.SAAT[ai]
+				rmean, tmean := g.REDUKSUM/float64(nd), g.TRRELSUM/float64(nd)
+				for _, v := range []struct {
+					n string
+					v float64
+				}{{"Reduk", rmean}, {"TRRel", tmean}} {
+					if !(v.v >= -1e-9 && v.v <= 1+1e-9) {
+						ofail(g, zeit, "season-mean-outside-0-1", "%s=%v sum-days=%d", v.n, v.v, nd)
+					}
+				}
 				emit(jobj{"k": "crop", "line": lineNo, "tag": tag, "crop": tr.crop, "variety": tr.variety, "sow": tr.sow, "stages": st, "harvest": zeit,
+					"reduk_mean": rmean, "trrel_mean": tmean, "days": nd,
 					"dev": g.DEV[:], "doy": g.TAG.Index + 1, "sowdate": g.Kalender(tr.sow), "harvestdate": g.Kalender(zeit)})
 				tr.active = false
 			}
